@@ -147,6 +147,12 @@ func (x *Exec) frameDo(st *State, where string, assumeOnly map[string]bool) {
 					continue
 				}
 			}
+			if err == nil && e.typ != nil {
+				if vn, _, hn, _, ok := x.mapHeaps(e.typ); ok {
+					ds = append(ds, desig{heap: vn, idx: []smt.T{e.t}}, desig{heap: hn, idx: []smt.T{e.t}})
+					continue
+				}
+			}
 			x.fatal("modifies %q: cannot resolve", loc)
 		case strings.HasSuffix(loc, ".*"):
 			e, err := x.evalTyped(mustParse(strings.TrimSuffix(loc, ".*")), ectx)
